@@ -59,18 +59,23 @@ Definition abstract (d : msgdef) : list spec_slot := map abstract_slot d.
 
 Definition be2 (n : N) : bytes := [(n / 256) mod 256; n mod 256].
 
-Definition emit (ss : spec_slot) (v : ieval) : bytes :=
-  let content (n : N) := firstn (N.to_nat n) (v_oct v) in
+(* identifier part, length part and value part of one element on the wire *)
+Definition id_part (ss : spec_slot) : bytes :=
+  match ss_fmt ss with FTV _ | FTLV | FTLVE => [ss_iei ss] | _ => [] end.
+Definition len_part (ss : spec_slot) (v : ieval) : bytes :=
   match ss_fmt ss with
-  | FV n => content n
-  | FLV => [v_len v mod 256] ++ content (v_len v)
-  | FLVE => be2 (v_len v) ++ content (v_len v)
-  | FT1 => content 1
-  | FTV n => [ss_iei ss] ++ content n
-  | FTLV => [ss_iei ss; v_len v mod 256] ++ content (v_len v)
-  | FTLVE => [ss_iei ss] ++ be2 (v_len v) ++ content (v_len v)
+  | FLV | FTLV => [v_len v mod 256]
+  | FLVE | FTLVE => be2 (v_len v)
+  | _ => []
+  end.
+Definition content_part (ss : spec_slot) (v : ieval) : bytes :=
+  match ss_fmt ss with
+  | FV n | FTV n => firstn (N.to_nat n) (v_oct v)
+  | FT1 => firstn 1 (v_oct v)
+  | FLV | FLVE | FTLV | FTLVE => firstn (N.to_nat (v_len v)) (v_oct v)
   | FBad => []
   end.
+Definition emit (ss : spec_slot) (v : ieval) : bytes := id_part ss ++ len_part ss v ++ content_part ss v.
 
 Definition is_mand (ss : spec_slot) : bool :=
   match ss_fmt ss with FV _ | FLV | FLVE => true | _ => false end.
